@@ -132,6 +132,21 @@ template<class L, class R, class Tag, bool RhsBuiltin = false>
                 continue;
             }
             vf::outcome(tie ? "ok_tie" : (inexact ? (i128(a) / i128(b) == q ? "ok_inexact_trunc" : "ok_inexact_adjusted") : "ok_exact"));
+            // compound form a /= b: the rounded quotient converted back to a's type
+            if (Big(q).template fits_type<L>()) {
+                L got3{};
+                vf::Outcome o3 = vf::run([&] {
+                    XL x(a);
+                    x /= XR(b);
+                    got3 = cnl::_impl::to_rep(x);
+                });
+                vf::validated();
+                if (!o3.ok() || i128(got3) != q) {
+                    vf::outcome(o3.ok() ? "wrong_value_div_assign" : o3.str());
+                    vf::violation(std::string("div_assign/") + (o3.ok() ? "value" : o3.str()) + "/" + quad + "/" + cls, id(), id() + ": a /= b gives " + (o3.ok() ? vf::to_s(got3) : o3.str()) + ", expected " + vf::to_s(q));
+                } else
+                    vf::outcome("ok_div_assign");
+            }
             // the internal entry point the operator dispatches to, called directly on the bare operands
             if constexpr (requires { cnl::_impl::divide<Tag, Tag, L, R>{}(a, b); }) {
                 i128 got2 = 0;
